@@ -836,7 +836,7 @@ class DocutilsRenderer(RendererProtocol):
         # create the section node
         new_section = nodes.section()
         self.add_line_and_source_path(new_section, token)
-        self.copy_attributes(token, new_section, ("class", "id"))
+        self.copy_attributes(token, new_section, ("class",))
         # if a top level section,
         # then add classes to set default mathjax processing to false
         # we then turn it back on, on a per-node basis
@@ -850,6 +850,9 @@ class DocutilsRenderer(RendererProtocol):
         title_node = nodes.title(token.children[0].content if token.children else "")
         self.add_line_and_source_path(title_node, token)
         new_section.append(title_node)
+        # note, the id is copied after the title is in place,
+        # since any report on it (e.g. a duplicate id) is appended to the section
+        self.copy_attributes(token, new_section, ("id",))
         # render the heading children into the title
         with self.current_node_context(title_node):
             self.render_children(token)
